@@ -119,7 +119,7 @@ int main(int argc, char** argv)
       tag("buffered"); val((uint64_t) it.size_); }
   } else if (w == "peak_count") { primesieve::set_num_threads((int) a3); val(primesieve::count_primes(a1, a2)); }
   else if (w == "peak_iter_fwd") { { primesieve::iterator it(a1); size_t mx = 0; uint64_t p = 0; while ((p = it.next_prime()) <= a2) { if (it.size_ > mx) mx = it.size_; } tag("maxbuf"); val((uint64_t) mx); } }
-  else if (w == "peak_iter_bwd") { { primesieve::iterator it(a2); uint64_t p; while ((p = it.prev_prime()) >= a1 && p > 0) { } } }
+  else if (w == "peak_iter_bwd") { { primesieve::iterator it(a2, a3 ? a1 : ~0ull); uint64_t p; while ((p = it.prev_prime()) >= a1 && p > 0) { } } }
   g_on = false;
   long n = g_count.load();
   printf("allocs=%ld outcome=%s values=%s live_after=%ld peak=%ld\n", n, outcome.c_str(), out.c_str(), g_live.load() - live0, g_peak.load() - live0);
